@@ -5,6 +5,7 @@ pub mod ctx;
 pub mod derx;
 pub mod keys;
 pub mod mon;
+pub mod mutate;
 pub mod ossl;
 pub mod pemx;
 pub mod spec;
